@@ -209,7 +209,7 @@ class E(Entity):
     def architecture(self):
         @std.concurrent
         def p():
-            self.o <<= cohdl.select_with(self.s, {"00": self.a, "01": ~self.a})
+            self.o <<= cohdl.select_with(self.s, {"00": self.a, "01": ~self.a, "10": self.a, "11": ~self.a})  # every 0/1 value listed: accepted without default
 t = std.VhdlCompiler.to_string(E)
 i = t.find("with ")
 print(t[i:t.find(";", i) + 1].replace("\\n", " "))
